@@ -159,18 +159,22 @@ theorem C14_gen_fresh_items :
 
 /-! ### what the agent is shown for a folder (round 7): `FolderObservation.observe`, the `pre_timestep` path, the order of a game step -/
 
+set_option maxRecDepth 16000 in
 /-- `FolderObservation.observe` as a guarded-effect table = `FolderObs.see`: not in the state dictionary → the default observation,
-cache untouched; `requires_scan` and flag clear → the cached value; `requires_scan` and flag set → `visible_status`; no
+cache untouched; `requires_scan`, flag clear and the cache read from this very folder (or never filled) → the cached value;
+`requires_scan` otherwise → `visible_status`; the folder's uuid is remembered with the cache; no
 `requires_scan` → `health_status`; the value reported is the value cached. (Rows about the files of the folder are not C14's.) -/
 theorem C14_gen_folder_observe :
     Gen.Health.folderObserve.filter (fun r => r.1 = "return" || r.1 = "set health_status" || r.1 = "set self.cached_obs" ||
-        r.1 = "set obs['health_status']") =
+        r.1 = "set obs['health_status']" || r.1 = "set same_folder" || r.1 = "set self._cached_uuid") =
       [("return", "folder_state is NOT_PRESENT_IN_STATE", "self.default_observation"),
        ("return", "not (folder_state is NOT_PRESENT_IN_STATE)", "obs"),
-       ("set health_status", "folder_state['scanned_this_step'] && not (folder_state is NOT_PRESENT_IN_STATE) && self.file_system_requires_scan", "folder_state['visible_status']"),
-       ("set health_status", "not (folder_state is NOT_PRESENT_IN_STATE) && not (folder_state['scanned_this_step']) && self.file_system_requires_scan", "self.cached_obs['health_status']"),
+       ("set health_status", "(not folder_state['scanned_this_step'] and same_folder) && not (folder_state is NOT_PRESENT_IN_STATE) && self.file_system_requires_scan", "self.cached_obs['health_status']"),
+       ("set health_status", "not (folder_state is NOT_PRESENT_IN_STATE) && not (not folder_state['scanned_this_step'] and same_folder) && self.file_system_requires_scan", "folder_state['visible_status']"),
        ("set health_status", "not (folder_state is NOT_PRESENT_IN_STATE) && not (self.file_system_requires_scan)", "folder_state['health_status']"),
        ("set obs['health_status']", "not (folder_state is NOT_PRESENT_IN_STATE)", "health_status"),
+       ("set same_folder", "not (folder_state is NOT_PRESENT_IN_STATE) && self.file_system_requires_scan", "self._cached_uuid is None or folder_state.get('uuid') == self._cached_uuid"),
+       ("set self._cached_uuid", "not (folder_state is NOT_PRESENT_IN_STATE)", "folder_state.get('uuid')"),
        ("set self.cached_obs", "not (folder_state is NOT_PRESENT_IN_STATE)", "obs")] ∧
     Gen.Health.stateKeys =
       [("FileSystemItemABC.describe_state", "health_status", "self.health_status.value"),
